@@ -23,6 +23,15 @@ CHECKS = {
  "C03": ("exploration", "differential monitor (cached vs uncached reader in lock-step) plus flat-model checker; race detector; runtime deadlock detector",
          "The C02 histories with SetCache at arbitrary points are executed in lock-step on a cached and an uncached reader; bytes, EOF condition, error class and raw LastChunk must agree per call and match the flat model, for LRU/FIFO/Random/StatsRecorder, capacities 1..6 and > file, rd<=1 (class A) and rd>1 (class B).",
          "Cache statistics are not compared; schedules sampled.", "3 C03"),
+ "C08": ("exploration", "independent RFC1952/BGZF framing parser as output monitor; cross-configuration differential (determinism); race detector",
+         "Every stream the underlying writer receives is walked by an independent parser (FEXTRA, BC subfield, sizes, CRC32/ISIZE, header fields), expanded with compress/gzip, compared across wc in {1,2,3,4,8}, and the EOF-marker <=> clean Close clause is checked under three terminations incl. failing last writes; a limit family sweeps member sizes across MaxBlockSize.",
+         "Header settings are legal; schedules sampled.", "3 C08"),
+ "C09": ("fault_enumeration", "fault injection at every underlying call index; Go runtime deadlock detector; goroutine-dump leak monitor; flat-model checker for returned bytes; race detector",
+         "For each workload of a fixed family the underlying Read/ReadByte/Seek/Write calls of a clean run are counted and a fault (error, partial+error, seek error) is injected at every index k for every wc/rd, cache and delay setting; oracles: every call returns, no library goroutine after Close, errors surface and stay, returned bytes are the model's also after recovery by Seek.",
+         "k is exhaustive per (workload, mode, configuration); schedules around the fault are sampled; hangs are decided only in plain (non-race) children.", "3 C09"),
+ "C12": ("exploration", "recorded-history checker over snapshots taken inside the underlying writer (prefix / whole-block / durability invariants); race detector",
+         "The underlying writer records the delivered length after every Write returns together with the bytes offered so far; an independent parser verifies each snapshot is a block boundary decoding to a prefix of the written data, Flush+Wait and Close durability, and bam.NewWriter header durability, with seeded write delays and hook-widened compressor schedules.",
+         "No faults here (C09); schedules sampled.", "3 C12"),
 }
 NOT_BUILT = "check not built yet in this session; see DESIGN.md section 3 for the planned monitor"
 
